@@ -367,6 +367,8 @@ mod verif_nx_pipeline {
         ForBegin(Vec<S>),
         WhileSimple,
         Case(Vec<S>),
+        // `if C then <statement> [else <statement>]` without begin/end: the branches are child lines one level deeper; no `;` before `else`
+        IfPlain(Box<S>, Option<Box<S>>),
     }
 
     fn ind(d: usize) -> String {
@@ -436,6 +438,21 @@ mod verif_nx_pipeline {
                 out.push(format!("{}while C do", ind(d)));
                 out.push(format!("{}W;", ind(d + 1)));
             }
+            S::IfPlain(a, b) => {
+                out.push(format!("{}if C then", ind(d)));
+                let mut inner = Vec::new();
+                render(a, d + 1, wrap_begin, &mut inner);
+                if b.is_some() {
+                    // the statement before `else` carries no semicolon
+                    let last = inner.pop().unwrap();
+                    inner.push(last.trim_end_matches(';').to_string());
+                }
+                out.extend(inner);
+                if let Some(b) = b {
+                    out.push(format!("{}else", ind(d)));
+                    render(b, d + 1, wrap_begin, out);
+                }
+            }
             S::Case(v) => {
                 out.push(format!("{}case X of", ind(d)));
                 out.push(format!("{}1: G;", ind(d + 1)));
@@ -460,6 +477,18 @@ mod verif_nx_pipeline {
             let b = &sub[(i + 1) % sub.len()];
             forms.push(S::Try(a.clone(), b.clone(), i % 2 == 0));
             forms.push(S::IfBegin(a.clone(), Some(b.clone())));
+            // unbraced branches: repeat / case / try / for / while / simple statement directly under `then`, with and without `else`
+            forms.push(S::IfPlain(Box::new(S::Repeat(a.clone())), Some(Box::new(S::Simple("D;")))));
+            let case_list = if a.is_empty() { vec![S::Simple("A;")] } else { a.clone() };
+            let then_branch = match i % 5 {
+                0 => S::Case(case_list),
+                1 => S::Try(a.clone(), b.clone(), i % 2 == 1),
+                2 => S::ForBegin(a.clone()),
+                3 => S::WhileSimple,
+                _ => S::Simple("A;"),
+            };
+            let else_branch = match i % 3 { 0 => Some(Box::new(S::Repeat(b.clone()))), 1 => Some(Box::new(S::Simple("D;"))), _ => None };
+            forms.push(S::IfPlain(Box::new(then_branch), else_branch));
         }
         let mut out: Vec<Vec<S>> = vec![vec![]];
         for f in &forms {
